@@ -11,6 +11,7 @@ import (
 
 func init() {
 	register(&Property{ID: "C29", Run: runC29, Mutants: []Mutant{
+		{Name: "init failure wrapped before it is returned (exit status lost)", File: "internal/wazero/module.go", Old: "\tif p.wazeroInitErr != nil {\n\t\terr = p.wazeroInitErr\n\t\treturn\n\t}", New: "\tif p.wazeroInitErr != nil {\n\t\terr = fmt.Errorf(\"wazero: init failed: %w\", p.wazeroInitErr)\n\t\treturn\n\t}", Expect: "exit-error-identity"},
 		{Name: "CmdRunAction trap path returns nil without exit", File: "internal/app/apprun/apprun.go", Old: "\t\tfmt.Println(err)\n\t\tos.Exit(1)\n\t} else {", New: "\t\tfmt.Println(err)\n\t} else {", Expect: "failure-reaches-failing-exit"},
 		{Name: "BuildApp error exits 0", File: "internal/app/apprun/apprun.go", Old: "fmt.Println(\"appbuild.BuildApp:\", err)\n\t\tos.Exit(1)", New: "fmt.Println(\"appbuild.BuildApp:\", err)\n\t\tos.Exit(0)", Expect: "failure-reaches-failing-exit"},
 		{Name: "exit code replaced by constant 0", File: "internal/app/apprun/apprun.go", Old: "os.Exit(exitCode)", New: "os.Exit(exitCode & 0)", Expect: "exit-code-provenance"},
@@ -92,6 +93,9 @@ func runC29(c *Ctx) {
 	mainPk := p.MustPkg(r2, "")
 	runPk := p.MustPkg(r1, "internal/app/apprun")
 	wzPk := p.MustPkg(r1, "internal/wazero")
+	if wzPk != nil {
+		c29ExitErrorIdentity(c, p, wzPk)
+	}
 	if mainPk == nil || runPk == nil || wzPk == nil {
 		return
 	}
